@@ -93,6 +93,10 @@ class kPathCover(pathmodel.AbstractPathModelDAG):
             Dictionary with the solver options. Default is `None`. See [solver options documentation](solver-options-optimizations.md).
 
         """
+        # (one-shot iterables - generators, iterators - are read once, here: the type checks below would use them up and the model would see nothing)
+        elements_to_ignore = list(elements_to_ignore) if elements_to_ignore is not None else elements_to_ignore
+        additional_starts = list(additional_starts) if additional_starts is not None else additional_starts
+        additional_ends = list(additional_ends) if additional_ends is not None else additional_ends
 
         # Handling node-weighted graphs
         self.cover_type = cover_type
